@@ -242,6 +242,23 @@ def check_unlocated(ctx, schema, base, stream, label, text, located_ast, located
                      "verdict on the located parse of the same text", dict(base, unlocated=kind, located=located_msgs[:5], got=msgs[:5]))
 
 
+def _has_empty_name(doc):
+    from py_gql.lang import ast as _ast
+    stack = list(doc.definitions)
+    while stack:
+        n = stack.pop()
+        if isinstance(n, _ast.FragmentDefinition) and not n.name.value:
+            return True
+        if isinstance(n, _ast.Field) and (not n.name.value or (n.alias is not None and not n.alias.value)):
+            return True
+        if isinstance(n, _ast.FragmentSpread) and not n.name.value:
+            return True
+        ss = getattr(n, "selection_set", None)
+        if ss is not None:
+            stack.extend(ss.selections)
+    return False
+
+
 def one_document(ctx, schema, holder, dump, sdl, enum_kind, label, text, variables, opname, lean_batch, stream, seeds=None):
     from py_gql.lang import parse
     from py_gql.exc import GraphQLSyntaxError
@@ -257,6 +274,11 @@ def one_document(ctx, schema, holder, dump, sdl, enum_kind, label, text, variabl
         return "syntax"
     ctx.count()
     base = {"sdl": sdl, "enum_kind": enum_kind, "document": text, "variables": variables, "operation_name": opname, "label": label}
+    # parser guarantee assumed by accepted_cannot_go_wrong_merged (hne, AliasesNonEmpty; proved for the parser MODEL:
+    # Props/C05_names.lean parsed_names_nonempty): no fragment name, alias, field name or spread name is empty
+    if _has_empty_name(ast):
+        ctx.fail("corr:empty-name-in-parsed-document", "parse() returned a document with an empty fragment name / alias / field name "
+                 "(hypotheses hne / AliasesNonEmpty of Props/C05_overlap.lean)", base, kind="correspondence")
     try:
         v = validate_ast(schema, ast)
     except RecursionError as e:
